@@ -1,0 +1,10 @@
+//go:build !verif
+
+package common
+
+import "sync"
+
+// VerifLockSite is a no-op unless built with the "verif" tag.
+func VerifLockSite(_ *sync.Mutex) func() { return verifNoop }
+
+func verifNoop() {}
